@@ -1428,7 +1428,16 @@ func (c *Conn) sendPending(id uint32) error {
 		// body points into the caller's Request, which stops being ours the
 		// moment the request is canceled.
 		if !pb.ctx.acquireFor(c, id) {
+			// Nothing of this chunk goes out, so none of it has been spent. The
+			// stream is gone, but the connection window is shared with every
+			// other upload, and the server is not going to grant these bytes a
+			// second time.
+			if n > 0 {
+				c.addWindow(0, int32(n))
+			}
+
 			c.deletePending(id)
+
 			return nil
 		}
 
